@@ -1,6 +1,7 @@
 """C12 (order of clock reads) and C13 (outages and PHC failures degrade on schedule):
 one iteration of `run_clock_error_bound_poller` and the grace-period arithmetic of `ClockErrorBoundPoller`,
 executed symbolically from the daemon's MIR; client half of C12 from `ClockErrorBound::now()`'s MIR."""
+import re
 import time
 
 import z3
@@ -380,6 +381,8 @@ def poller_order_half(ck, prog, seed):
     pm = PollerModel(prog)
     S = pm.run()
     pr = Prover(seed); pr.add(pm.ex.side)
+    # what clock_gettime returns: a well-formed timespec
+    pr.add(pm.as_s >= 0, pm.as_s < 2 ** 40, pm.as_n >= 0, pm.as_n < NS)
     M = pm.msg
     n = 0
     rpo = common.Replay('debug')
@@ -395,8 +398,13 @@ def poller_order_half(ck, prog, seed):
             bad.append('chronyd was queried before the monotonic clock was read')
         if f and not f.get('clock_ids', '').startswith('6'):
             bad.append('the first clock read is clock id %s, not CLOCK_MONOTONIC_COARSE (6)' % f.get('clock_ids'))
-        if 'ClockErrorBoundData' in f.get('msgs', '') and 'asof=123.456' not in f.get('msgs', ''):
-            bad.append('the as-of instant of the message (%s) is not the reading taken before the query (123.000000456; the virtual clock advances 1 s per read)' % f.get('msgs'))
+        ma = re.search(r'asof=(-?\d+)\.(-?\d+)', f.get('msgs', '')) if 'ClockErrorBoundData' in f.get('msgs', '') else None
+        if ma:
+            a_s, a_n = int(ma.group(1)), int(ma.group(2))
+            if not (0 <= a_n < NS) or a_s * NS + a_n > 123 * NS + 456:
+                bad.append('the as-of instant of the message (%s) is later than the reading taken before the query, or malformed (reading: 123.000000456; the virtual clock advances 1 s per read)' % f.get('msgs'))
+        elif 'ClockErrorBoundData' in f.get('msgs', ''):
+            bad.append('the message carries no as-of instant: %s' % f.get('msgs'))
         if bad:
             ck.violation('poller-read-order', 'real poller loop (chronyd answered=%s, PHC configured=%s, ids %d/%d, PHC read ok=%s): %s' % (some, cfg, cfg_id, t_id, phc_ok, '; '.join(bad)), {'cmd': 'poller', 'native': out})
             return bad[0]
@@ -418,8 +426,10 @@ def poller_order_half(ck, prog, seed):
                 if e.kind == 'send' and isinstance(e.args[1], Enum) and 'ClockErrorBoundData' in e.args[1].p:
                     tup = e.args[1].p['ClockErrorBoundData'].f[0]
                     ts = tup.f[2]
-                    pr.prove_cegar(label + ': the as-of instant attached to the report is that earlier clock reading', z3.And(a.guard, e.args[1].disc() == M['ClockErrorBoundData']),
-                                   z3.And(ts.f[0] == pm.as_s, ts.f[1] == pm.as_n), confirm_order, lambda m: [])
+                    # "a reading taken before the request": not later than the value the clock returned before the query, and a
+                    # well-formed timespec (an implementation that back-dates the reading stays on the pessimistic side)
+                    pr.prove_cegar(label + ': the as-of instant attached to the report is not later than that earlier clock reading (and well formed)', z3.And(a.guard, e.args[1].disc() == M['ClockErrorBoundData']),
+                                   z3.And(ts.f[0] * NS + ts.f[1] <= pm.as_s * NS + pm.as_n, ts.f[1] >= 0, ts.f[1] < NS), confirm_order, lambda m: [])
     rpo.close()
     ck.absorb(pr, 'daemon: ')
     return pm
